@@ -309,6 +309,8 @@ SOCK_KINDS = {
     "dgram": ("AF_INET", socket.SOCK_DGRAM),
     "inet6_dgram": ("AF_INET6", socket.SOCK_DGRAM),
     "unix_dgram": ("AF_UNIX", socket.SOCK_DGRAM),
+    "unix_seqpacket": ("AF_UNIX", socket.SOCK_SEQPACKET),
+    "inet_raw": ("AF_INET", socket.SOCK_RAW),
 }
 NONSOCK = {"str": "not-a-socket", "int": 0, "none": None}
 
@@ -461,23 +463,29 @@ def excl_cases(tier):
                 fams = ["v4", "v6"] if ("listen" in names or "host" in names) else ["v4"]
                 for fam in fams:
                     yield {"t": "excl", "names": list(names), "toggle": toggle, "fam": fam}
+            # the same conflict with values that are false in a boolean context (port 0, empty host)
+            ngroups = sum(1 for g in ("listen", "sockets", "unix_socket") if g in names) + (1 if ("host" in names or "port" in names) else 0)
+            if ngroups > 1 and ("host" in names or "port" in names):
+                yield {"t": "excl", "names": list(names), "toggle": "none", "fam": "v4", "falsy": True}
 
 
 def eval_excl(case):
     names, toggle, fam = case["names"], case["toggle"], case["fam"]
-    r = R("excl|%s|%s|%s" % ("+".join(names) or "-", toggle, fam))
+    r = R("excl|%s|%s|%s%s" % ("+".join(names) or "-", toggle, fam, "|falsy" if case.get("falsy") else ""))
     kw = {}
     socks = None
     for n in names:
         if n in ("listen", "host"):
             kw[n] = EXCL_VALUES[fam][n]
         elif n == "port":
-            kw[n] = 9090
+            kw[n] = 0 if case.get("falsy") else 9090
         elif n == "unix_socket":
             kw[n] = "/tmp/vf-c20.sock"
         elif n == "sockets":
             socks = make_sockets(["inet"])
             kw[n] = socks
+    if case.get("falsy") and "host" in kw:
+        kw["host"] = ""
     kw.update(TOGGLES[toggle])
     try:
         groups = []
@@ -677,6 +685,11 @@ def unknown_cases(tier):
     for n in UNKNOWN_KW:
         for extra in ({}, {"port": 9090}, {"listen": "127.0.0.1:9191", "threads": 2}):
             yield {"t": "unknown", "via": "kw", "name": n, "with": extra}
+    for n in UNKNOWN_KW:
+        if n == "app":
+            continue  # collides with the positional parameter of serve() itself (Python's TypeError, not an adjustment)
+        for via in ("serve", "paste"):
+            yield {"t": "unknown", "via": via, "name": n, "with": {"port": 0}}
     for a in UNKNOWN_CLI:
         for extra in ([], ["--port=9090"]):
             yield {"t": "unknown", "via": "cli", "name": a, "with": extra}
@@ -691,6 +704,38 @@ def eval_unknown(case):
         kw[case["name"]] = "1"
         st, res = construct(kw)
         shown = js(kw)
+    elif case["via"] in ("serve", "paste"):
+        # docs/arguments.rst: the same arguments through waitress.serve() and through PasteDeploy
+        # (waitress.serve_paste); the server factory is the documented test shim, which does what
+        # create_server does first: build the Adjustments
+        import waitress
+        from waitress.adjustments import Adjustments
+
+        class _Srv:
+            def __init__(self, app, **kw2):
+                self.adj = Adjustments(**kw2)
+
+            def run(self):
+                pass
+
+            def print_listen(self, *a):
+                pass
+
+        kw = dict(case["with"])
+        kw[case["name"]] = "1"
+        shown = case["via"] + "(" + js(kw) + ")"
+        with warnings.catch_warnings():
+            warnings.simplefilter("ignore")
+            try:
+                if case["via"] == "serve":
+                    waitress.serve(dummy_app, _server=_Srv, _quiet=True, **kw)
+                else:
+                    waitress.serve_paste(dummy_app, {"here": "/"}, _server=_Srv, _quiet=True, **kw)
+                st, res = "ok", None
+            except ValueError as e:
+                st, res = "refused", str(e)
+            except Exception as e:  # noqa: BLE001
+                st, res = "exc", e
     else:
         argv = (case["with"] + [case["name"]]) if case.get("last") else ([case["name"]] + case["with"])
         st, res = from_cli(argv)
@@ -717,6 +762,11 @@ def socket_cases(tier):
     for n in (1, 2, 3):
         for ks in itertools.product(kinds, repeat=n):
             yield {"t": "sockets", "kinds": list(ks)}
+    for extra in ("unix_seqpacket", "inet_raw"):
+        yield {"t": "sockets", "kinds": [extra]}
+        for k in ("inet", "unix"):
+            yield {"t": "sockets", "kinds": [k, extra]}
+            yield {"t": "sockets", "kinds": [extra, k]}
     yield {"t": "sockets", "kinds": []}
     for ks in (["str"], ["inet", "str"], ["str", "unix"], ["int"], ["none", "inet"], ["inet", "str", "unix"]):
         yield {"t": "sockets", "kinds": ks}
@@ -746,7 +796,7 @@ def eval_sockets(case):
             return r
         has_inet = any(k in ("inet", "inet6") for k in real)
         has_unix = "unix" in real
-        unsupported = [k for k in real if k.endswith("dgram")]
+        unsupported = [k for k in real if SOCK_KINDS[k][1] != socket.SOCK_STREAM]
         if unsupported:
             why = "accepted-conflict:unsupported-socket-type"
         elif has_inet and has_unix:
